@@ -232,6 +232,14 @@ def run_shard(args):
     """Entry point of a worker: one shard of one check."""
     modname, checkname, tier, seed, shard, nshards, n, known = args
     import importlib
+    try:
+        # a runaway allocation becomes MemoryError (harness error, exit 2)
+        # in this worker instead of an OOM kill of something else
+        import resource
+        lim = int(os.environ.get("VERIF_MEM_GB", "6")) * 1024 ** 3
+        resource.setrlimit(resource.RLIMIT_AS, (lim, lim))
+    except Exception:   # noqa
+        pass
     mod = importlib.import_module(modname)
     check = [c for c in mod.CHECKS if c.name == checkname][0]
     rec = Recorder(mod.PROPERTY, check, tier, seed, set(known))
